@@ -533,6 +533,15 @@ func ruleReorgReachesNewTip(c *report.Ctx) {
 			if fa.X == cell {
 				return true
 			}
+			// the wallet's own block at a height, as read from the sync store in this transaction (what the tip is
+			// re-read from after the rewind)
+			if sb := p.Fn(pkgTxmgr, "SyncStore", "SyncedBlock"); sb != nil {
+				if ex, isEx := soleNonNil(fa.X).(*ssa.Extract); isEx && ex.Index == 0 {
+					if call, isCall := ex.Tuple.(*ssa.Call); isCall && call.Call.StaticCallee() == sb {
+						return true
+					}
+				}
+			}
 			// a copy of the tip handed to a helper by value (the helper's parameter cell, initialised from ours)
 			if c2, isAlloc := fa.X.(*ssa.Alloc); isAlloc && c2.Referrers() != nil {
 				for _, r := range *c2.Referrers() {
